@@ -136,3 +136,164 @@ Proof.
 Qed.
 Example one_interface_instance : pass (mkLc false 5 1 3 2) (2, [mkLe 1 2 0 0 0 false]) = ((2, [mkLe 1 2 0 0 0 false]), []).
 Proof. apply one_interface_in_band_is_fixed; [reflexivity | discriminate | vm_compute; discriminate | vm_compute; discriminate]. Qed.
+
+(* ---- a node with ONE interface does converge (per-interface limit within one batch of 10) ---------------------- *)
+(* the plan for one interface of the record holding n valid (idle) and d deleting IPv4 addresses, IPv4 only:
+   the interface asks for a = assign_fam ..., the fresh slots for nothing when the demand is covered *)
+Lemma plan_single c id n d :
+  l_dual c = false -> id <> 0 ->
+  let '(a, f, t) := assign_fam (l_per c) (n + d) n 0 (l_min c) l_batch in
+  t <= 0 ->
+  first_ask (plan (pcfg c) (map opt_of (sort_e [mkLe id n d 0 0 false])) (l_min c) 0) =
+  if 0 <? a then Some (mkOpt false false id (n + d) n 0 0 true a 0 f) else None.
+Proof.
+  intros Hd Hid. destruct (assign_fam (l_per c) (n + d) n 0 (l_min c) l_batch) as [[a f] t] eqn:Ea. intros Ht.
+  unfold plan, pcfg. rewrite Hd. cbn [pc_on4 pc_on6 sort_e fold_right insert_e map].
+  unfold eni_options. cbn [pc_fl_sec pc_fl_trunk pc_fl_rdma pc_trunk pc_rdma]. unfold replicate at 1 2. cbn [Z.to_nat repeat app].
+  unfold replicate. set (k := Z.to_nat _).
+  cbn [assign_opts app]. unfold opt_filter at 1. unfold opt_of at 1 2. cbn [o_rdma o_eni o_inuse negb andb c_gone c_id]. rewrite orb_true_r.
+  unfold assign_one. unfold opt_of at 1. cbn [o_eni c_id]. replace (id =? 0) with false by (symmetry; apply Z.eqb_neq; exact Hid). cbn [negb].
+  unfold opt_of. cbn [o_len4 o_al4 o_add4 o_len6 o_al6 o_add6 o_trunk o_rdma o_eni o_inuse o_full pc_per4 pc_per6 pc_batch c_id c_gone c_n4 c_d4 c_n6 c_d6 negb].
+  unfold len4, len6. cbn [c_n4 c_d4 c_n6 c_d6].
+  assert (Hf6 : assign_fam (l_per c) (0 + 0) 0 0 0 l_batch = (0, false, 0)) by reflexivity. rewrite Hf6.
+  rewrite Ea. cbn [orb].
+  rewrite fresh_tail_quiet by lia.
+  rewrite rdma_pass_skips.
+  2:{ cbn [forallb o_rdma negb andb]. apply forallb_repeat. reflexivity. }
+  unfold first_ask. cbn [find o_add4 o_add6]. change (0 <? 0) with false. rewrite orb_false_r.
+  change (0 + 0) with 0. rewrite (orb_false_r f). destruct (0 <? a) eqn:E.
+  - reflexivity.
+  - assert (Hq : forall k, find (fun o : opt => (0 <? o_add4 o) || (0 <? o_add6 o)) (repeat (fresh_opt false false) k) = None).
+    { intros k0. induction k0 as [|k0 IH]; [reflexivity|]. cbn [repeat find]. cbn [fresh_opt o_add4 o_add6]. exact IH. }
+    apply Hq.
+Qed.
+
+Lemma add_single c next id n d :
+  l_dual c = false -> id <> 0 ->
+  let '(a, f, t) := assign_fam (l_per c) (n + d) n 0 (l_min c) l_batch in
+  t <= 0 -> 0 <= a ->
+  add_step c next [mkLe id n d 0 0 false] =
+  if 0 <? a then ([mkLe id (n + a) d 0 0 false], [(3, id, a)]) else ([mkLe id n d 0 0 false], []).
+Proof.
+  intros Hd Hid. pose proof (plan_single c id n d Hd Hid) as P.
+  destruct (assign_fam (l_per c) (n + d) n 0 (l_min c) l_batch) as [[a f] t]. intros Ht Ha.
+  unfold add_step. rewrite (P Ht). destruct (0 <? a) eqn:E; [|reflexivity].
+  cbn [o_eni o_add4 o_add6]. replace (id =? 0) with false by (symmetry; apply Z.eqb_neq; exact Hid).
+  cbn [map c_id c_n4 c_d4 c_n6 c_d6 c_gone]. rewrite Z.eqb_refl. rewrite E. change (0 <? 0) with false. cbn [app].
+  rewrite (Z.max_r 0 a Ha). change (Z.max 0 0) with 0. change (0 + 0) with 0. reflexivity.
+Qed.
+
+(* gc on one interface without a deleting interface mark: unassign what is marked (at most a batch), then trim above max *)
+Lemma gc_single id n d :
+  0 <= d <= l_batch ->
+  let l2 := [mkLe id n 0 0 0 false] in
+  status_step [mkLe id n d 0 0 false] = (l2, if 0 <? d then [(5, id, d)] else []).
+Proof.
+  intros Hd. unfold status_step. cbn [flat_map c_gone c_id c_n4 c_d4 c_n6 c_d6 app].
+  change (0 <? 0) with false. rewrite (Z.min_l d l_batch) by lia. replace (d - d) with 0 by lia.
+  change (0 - Z.min 0 l_batch) with 0. destruct (0 <? d); reflexivity.
+Qed.
+
+Lemma adjust_in_band c id n : n <= l_max c -> adjust_step c [mkLe id n 0 0 0 false] = [mkLe id n 0 0 0 false].
+Proof.
+  intros H. unfold adjust_step. cbn [map c_gone c_n4 fold_left]. replace (0 + n - l_max c <=? 0) with true by (symmetry; apply Z.leb_le; lia). reflexivity.
+Qed.
+Lemma adjust_above c id n : 1 <= n -> 0 <= l_max c < n ->
+  adjust_step c [mkLe id n 0 0 0 false] = [mkLe id (Z.max (l_max c) 1) (n - Z.max (l_max c) 1) 0 0 false].
+Proof.
+  intros Hn Hm. unfold adjust_step. cbn [map c_gone c_n4 fold_left]. replace (0 + n - l_max c <=? 0) with false by (symmetry; apply Z.leb_gt; lia).
+  cbn [sort_e fold_right insert_e rev app trim_from_end]. replace (0 + n - l_max c <=? 0) with false by (symmetry; apply Z.leb_gt; lia).
+  unfold trim_e, len4, len6. cbn [c_n4 c_d4 c_n6 c_d6 c_id].
+  replace (n + 0 <? 0 + n - l_max c) with false by (symmetry; apply Z.ltb_ge; lia). cbn [andb].
+  cbn [find c_id]. rewrite Z.eqb_refl.
+  f_equal. f_equal; lia.
+Qed.
+
+Definition one (id n d : Z) : list lce := [mkLe id n d 0 0 false].
+Section OneInterface.
+  Variable c : lcfg.
+  Variables next id : Z.
+  Hypothesis Hd : l_dual c = false.
+  Hypothesis Hid : id <> 0.
+  Hypothesis Hmin : 0 <= l_min c <= l_max c.
+  Hypothesis Hper : l_min c <= l_per c <= l_batch.
+
+  (* below the band: one round fills up to min *)
+  Lemma round_refill n : 1 <= n < l_min c ->
+    pass c (next, one id n 0) = ((next, one id (l_min c) 0), [(3, id, l_min c - n)]).
+  Proof.
+    intros Hn. unfold pass, one.
+    pose proof (add_single c next id n 0 Hd Hid) as A.
+    assert (E : assign_fam (l_per c) (n + 0) n 0 (l_min c) l_batch = (l_min c - n, false, 0)).
+    { unfold assign_fam, min3. replace (0 <? l_min c) with true by (symmetry; apply Z.ltb_lt; lia).
+      replace (0 <? l_min c - n) with true by (symmetry; apply Z.ltb_lt; lia).
+      replace (0 <? l_per c - (n + 0)) with true by (symmetry; apply Z.ltb_lt; lia).
+      unfold l_batch in *. f_equal; [f_equal|]; lia. }
+    rewrite E in A. cbv beta iota zeta in A. rewrite (A ltac:(lia) ltac:(lia)). replace (0 <? l_min c - n) with true by (symmetry; apply Z.ltb_lt; lia).
+    replace (n + (l_min c - n)) with (l_min c) by lia.
+    rewrite (gc_single id (l_min c) 0) by (unfold l_batch; lia). change (0 <? 0) with false.
+    rewrite adjust_in_band by lia. reflexivity.
+  Qed.
+  (* no demand when the interface holds at least min *)
+  Lemma no_refill n d : l_min c <= n -> add_step c next (one id n d) = (one id n d, []).
+  Proof.
+    intros Hn. pose proof (add_single c next id n d Hd Hid) as A.
+    assert (E : exists t, t <= 0 /\ assign_fam (l_per c) (n + d) n 0 (l_min c) l_batch = (0, false, t)).
+    { unfold assign_fam. destruct (0 <? l_min c) eqn:E0.
+      - replace (0 <? l_min c - n) with false by (symmetry; apply Z.ltb_ge; lia). exists (l_min c - n). split; [lia|reflexivity].
+      - exists (l_min c). apply Z.ltb_ge in E0. split; [lia|reflexivity]. }
+    destruct E as [t [Ht E]]. rewrite E in A. cbv beta iota zeta in A. unfold one. rewrite (A Ht ltac:(lia)). reflexivity.
+  Qed.
+  (* above the band: the surplus is marked (no call yet) ... *)
+  Lemma round_mark n : 1 <= n -> l_max c < n ->
+    pass c (next, one id n 0) = ((next, one id (Z.max (l_max c) 1) (n - Z.max (l_max c) 1)), []).
+  Proof.
+    intros Hn Hm. unfold pass. rewrite no_refill by lia. unfold one.
+    rewrite (gc_single id n 0) by (unfold l_batch; lia). change (0 <? 0) with false.
+    rewrite adjust_above by lia. reflexivity.
+  Qed.
+  (* ... and unassigned in the next round *)
+  Lemma round_unassign k d : 1 <= k -> l_min c <= k -> (k <= l_max c \/ k = 1) -> 0 < d <= l_batch ->
+    pass c (next, one id k d) = ((next, one id k 0), [(5, id, d)]).
+  Proof.
+    intros Hk Hkm Hb Hdd. unfold pass. rewrite no_refill by lia. unfold one.
+    rewrite (gc_single id k d) by lia. replace (0 <? d) with true by (symmetry; apply Z.ltb_lt; lia).
+    destruct (Z_le_gt_dec k (l_max c)) as [L|G].
+    - rewrite adjust_in_band by lia. reflexivity.
+    - assert (k = 1) by lia. subst k. rewrite adjust_above by lia. rewrite Z.max_r by lia. reflexivity.
+  Qed.
+  (* inside the band (or at the primary address when max = 0): nothing happens *)
+  Lemma round_quiet k : 1 <= k -> l_min c <= k -> (k <= l_max c \/ k = 1) ->
+    pass c (next, one id k 0) = ((next, one id k 0), []).
+  Proof.
+    intros Hk Hkm Hb. destruct (Z_le_gt_dec k (l_max c)) as [L|G].
+    - apply one_interface_in_band_is_fixed; assumption.
+    - assert (k = 1) by lia. subst k. rewrite round_mark by lia. rewrite Z.max_r by lia. reflexivity.
+  Qed.
+  Lemma quiet_forever k m : 1 <= k -> l_min c <= k -> (k <= l_max c \/ k = 1) ->
+    passes c m (next, one id k 0) = (next, one id k 0).
+  Proof.
+    intros Hk Hkm Hb. induction m as [|m IH]; [reflexivity|]. rewrite passes_S, IH, round_quiet by assumption. reflexivity.
+  Qed.
+
+  Theorem one_interface_converges n : 1 <= n <= l_per c -> converges c (next, one id n 0).
+  Proof.
+    intros Hn. destruct (Z_lt_le_dec n (l_min c)) as [Lo|Hi].
+    - (* refill, then quiet *)
+      exists 1%nat. intros m Hm. destruct m as [|m]; [lia|].
+      assert (E : passes c (S m) (next, one id n 0) = (next, one id (l_min c) 0)).
+      { cbn [passes]. rewrite round_refill by lia. cbn [fst]. apply quiet_forever; lia. }
+      rewrite E, round_quiet by lia. reflexivity.
+    - destruct (Z_le_gt_dec n (l_max c)) as [In|Ab].
+      + exists 0%nat. intros m _. rewrite quiet_forever, round_quiet by lia. reflexivity.
+      + (* mark, unassign, quiet *)
+        exists 2%nat. intros m Hm. destruct m as [|[|m]]; [lia|lia|].
+        set (k := Z.max (l_max c) 1).
+        assert (E : passes c (S (S m)) (next, one id n 0) = (next, one id k 0)).
+        { cbn [passes]. rewrite round_mark by lia. cbn [fst]. fold k.
+          destruct (Z.eq_dec (n - k) 0) as [Z0|NZ].
+          - rewrite Z0. rewrite round_quiet by (unfold k; lia). cbn [fst]. apply quiet_forever; unfold k; lia.
+          - rewrite round_unassign by (unfold k, l_batch in *; lia). cbn [fst]. apply quiet_forever; unfold k; lia. }
+        rewrite E, round_quiet by (unfold k; lia). reflexivity.
+  Qed.
+End OneInterface.
